@@ -52,7 +52,13 @@ def probe_alone_vs_batch(inp: Dict[str, Any]) -> Dict[str, Any]:
     names = inp["names"]
     k = inp["target"]
     alone = esh.run_named([names[k]], sp)
-    full = esh.run_named(names, sp, pad_to=inp.get("pad_to"), pad_coord=inp.get("pad_coord", 0.0))
+    try:
+        full = esh.run_named(names, sp, pad_to=inp.get("pad_to"), pad_coord=inp.get("pad_coord", 0.0))
+    except Exception as e:
+        # the molecule computes fine alone but the batch containing it fails: the batch mates are not transparent
+        return {"ok": False, "observed": [f"computes alone, but inside the batch {names} the call raises {type(e).__name__}: {str(e)[:120]}"], "expected": "same result alone and in any batch",
+                "predicate": "alone == in-batch", "fields": {"what": ["batch_raises"], "method": inp["method"], "converger": inp.get("converger", [1])[0],
+                                                              "sp2": bool((inp.get("sp2") or [False])[0]), "excited": bool(inp.get("excited"))}}
     nat = len(esh.GEOMS[names[k]][0])
     norb = int(alone["norb"][0])
     tol = inp.get("tol", 1e-9)
@@ -97,11 +103,16 @@ def probe_same_element_swap(inp: Dict[str, Any]) -> Dict[str, Any]:
 def probe_md_alone_vs_batch(inp: Dict[str, Any]) -> Dict[str, Any]:
     """trajectory of molecule k independent of its batch mates (real engine, few steps)"""
     sc_a = dict(engine=inp.get("engine", "basic"), stub=False, mols=[inp["names"][inp["target"]]], molid=[0],
-                cad=dict(data=1, coordinates=1, velocities=0, forces=1, xyz=0, print=0, ckpt=0), steps=inp.get("steps", 4), temp=0.0, seed=1, k=inp.get("k", 4))
-    sc_b = dict(sc_a, mols=list(inp["names"]), molid=[inp["target"]])
+                cad=dict(data=1, coordinates=1, velocities=0, forces=1, xyz=0, print=0, ckpt=0), steps=inp.get("steps", 4), temp=0.0, seed=1, k=inp.get("k", 4),
+                charges=[esh.CHARGE.get(inp["names"][inp["target"]], 0)])
+    sc_b = dict(sc_a, mols=list(inp["names"]), molid=[inp["target"]], charges=[esh.CHARGE.get(n, 0) for n in inp["names"]])
     mdh.DEFAULT_MOLS.update({k: (v[0], np.asarray(v[1]).tolist()) for k, v in esh.GEOMS.items() if k not in mdh.DEFAULT_MOLS})
     ra = mdh.in_process_run(sc_a, tag="c05a")[0]
-    rb = mdh.in_process_run(sc_b, tag="c05b")[inp["target"]]
+    try:
+        rb = mdh.in_process_run(sc_b, tag="c05b")[inp["target"]]
+    except Exception as e:
+        return {"ok": False, "observed": [f"MD of {inp['names'][inp['target']]} runs alone, but inside the batch {inp['names']} it raises {type(e).__name__}: {str(e)[-160:]}"],
+                "expected": "trajectory of molecule k independent of batch mates", "predicate": "MD alone == MD in batch", "fields": {"what": ["md_batch_raises"], "engine": sc_a["engine"]}}
     bad = []
     for g in ("coordinates", "forces", "data"):
         va, vb = ra["h5"][g]["values"], rb["h5"][g]["values"]
@@ -137,12 +148,19 @@ def gen_cases(ctx: Ctx):
         if i % 5 == 4:
             c["analytical"] = [True] if i % 2 else [True, "numerical"]
         cases.append(("alone_vs_batch", c))
+    # adversarial stratum: batch mates with the SAME number of orbitals but a different heavy/hydrogen split (CH4: 1+4, CO: 2+0 -> 8 orbitals;
+    # SO2: 3+0, C2H4: 2+4 -> 12): any shortcut keyed on the orbital count alone mixes their layouts
+    for i, names in enumerate([["ch4", "co"], ["co", "ch4"], ["so2", "c2h4"], ["c2h4", "so2", "ch4", "co"]][: (4 if ctx.thorough else 3)]):
+        for tgt in range(len(names)):
+            cases.append(("alone_vs_batch", {"names": names, "target": tgt, "method": methods[i % 4], "converger": [[1], [0, 0.2], [2]][i % 3], "tol": 1e-9 if i % 3 != 2 else 1e-7,
+                                             "eps": 1e-10}))
     # excited states: homogeneous batch (same species, different coords handled via names repeated) and mixed
     cases.append(("alone_vs_batch", {"names": ["ch2o", "ch2o"], "target": 1, "method": "AM1", "converger": [1], "excited": {"n_states": 3, "method": "cis"}, "tol": 1e-8}))
     cases.append(("alone_vs_batch", {"names": ["h2o", "ch2o", "nh3"], "target": 1, "method": "AM1", "converger": [1], "excited": {"n_states": 2, "method": "cis"}, "tol": 1e-7}))
     for nm, i, j, meth in [("ch4", 1, 3, "AM1"), ("h2o", 1, 2, "PM3"), ("so2", 1, 2, "MNDO"), ("c2h4", 0, 1, "PM6_SP")][: (4 if ctx.thorough else 2)]:
         cases.append(("same_element_swap", {"name": nm, "i": i, "j": j, "method": meth}))
     cases.append(("md_alone_vs_batch", {"names": ["h2", "h2o"], "target": 0, "engine": "basic", "steps": 3}))
+    cases.append(("md_alone_vs_batch", {"names": ["ch4", "oh-"], "target": 1, "engine": "ksa", "steps": 3, "k": 4}))
     if ctx.thorough:
         cases.append(("md_alone_vs_batch", {"names": ["h2o", "h2", "co"], "target": 1, "engine": "xl", "steps": 4, "k": 5}))
     return cases
@@ -227,6 +245,35 @@ def corr_pack(ctx: Ctx, drv):
         got = unpack(X0, torch.tensor([nheavy]), torch.tensor([nhydro]), size)[0].reshape(-1).to(torch.int64).tolist()
         ans = drv.ask("unpackidx", nheavy, nhydro, molsize, size)
         ctx.corr_case("unpack (index map)", {"nheavy": nheavy, "nhydro": nhydro, "molsize": molsize}, ans[:6], got[:6], [int(a) for a in ans] == got if ans[0] != "bad-op" else False)
+    # pack/unpack on BATCHES: every row must be packed with its own heavy/hydrogen layout (rows with equal orbital count but different split included)
+    for it in range(20 if ctx.thorough else 8):
+        nm = int(rng.integers(2, 5))
+        rows = []
+        if it % 2 == 0:
+            norb = int(rng.choice([8, 12]))
+            while len(rows) < nm:
+                nh_ = int(rng.integers(0, norb // 4 + 1))
+                rows.append((nh_, norb - 4 * nh_))
+        else:
+            rows = [(int(rng.integers(0, 3)), int(rng.integers(0, 4))) for _ in range(nm)]
+            rows = [(a if a + b > 0 else 1, b) for a, b in rows]
+        molsize = max(a + b for a, b in rows) + int(rng.integers(0, 2))
+        size = 4 * molsize
+        X = (1 + torch.arange(size * size)).reshape(1, size, size).to(torch.float64).repeat(nm, 1, 1)
+        nH_t, nHy_t = torch.tensor([a for a, b in rows]), torch.tensor([b for a, b in rows])
+        got = pack(X, nH_t, nHy_t)
+        nmax = int(got.shape[-1])
+        ok = True
+        for r_, (a, b) in enumerate(rows):
+            ans = drv.ask("packidx", a, b, molsize, nmax)
+            want = got[r_].reshape(-1).to(torch.int64).tolist()
+            ok = ok and ans[0] != "bad-op" and [int(v) for v in ans] == want
+        ctx.corr_case("pack (batch, per-row layout)", {"rows": rows, "molsize": molsize}, "per-row model", "real batch pack", ok,
+                      stratum="equal_norb_different_split" if it % 2 == 0 else "mixed")
+        # round trip through unpack on the batch
+        back = unpack(got, nH_t, nHy_t, size)
+        again = pack(back, nH_t, nHy_t)
+        ctx.corr_case("pack(unpack(pack)) on a batch", {"rows": rows}, "idempotent", "real", bool(torch.equal(again, got)), stratum="equal_norb_different_split" if it % 2 == 0 else "mixed")
     # occupation numbers incl. every raising case (fake valence table as in the model's protocol)
     for it in range(120 if ctx.thorough else 40):
         uhf = int(rng.integers(0, 2))
